@@ -14,14 +14,24 @@ package path
 // request checks that refuse a Set operation: every refusal is counted
 //@ ghost checkFailures int
 
+// the model lookup key of a path: its text with every list-key value replaced by a wildcard
+//@ uninterp anonPath(string) string
+// what the last model lookup answered (ghost): whether the path itself is a model path, and whether
+// the model element found is a list-key leaf
+//@ ghost lastFindExact bool
+//@ ghost lastFindKey bool
 //@ func FindPathFromModel(path, rwPaths, exact) (isExact, rwPath, err)
-//@   props C12, C13
+//@   props C12, C13, C03
 //@   safe
-//@   trusted
-//@   modifies checkFailures
-//@   ensures checkFailures == old(checkFailures) + ite(err == nil, 0, 1)
+//@   modifies checkFailures, lastFindExact, lastFindKey
+// ghost bookkeeping: real code cannot touch ghost state, so these clauses are assumed at call sites
+//@   assumed ensures checkFailures == old(checkFailures) + ite(err == nil, 0, 1)
+//@   assumed ensures lastFindExact == isExact && (rwPath != nil ==> lastFindKey == rwPath.IsAKey)
+//@   ensures {C13,C03} exact-means-model-path: isExact == (anonPath(path) in rwPaths)
+//@   ensures {C13} exact-lookup-refuses-non-model-path: exact && !(anonPath(path) in rwPaths) ==> err != nil
 //@   ensures err == nil ==> rwPath != nil
 //@   ensures errWF(err)
+//@   fresh rwPath
 //@ func CheckKeyValue(path, rwPath, val) (err)
 //@   props C12, C13
 //@   safe
@@ -73,3 +83,5 @@ package path
 //@   props C12
 //@   safe
 //@   modifies nothing
+// the replacement itself (regexp.ReplaceAllString) is not modelled: its result is named, not characterised
+//@   assumed ensures r == anonPath(path)
